@@ -149,6 +149,46 @@ func (w *world) exec(line string) string {
 		w.gkeys = append(w.gkeys, gk)
 		c := w.waitAll(func(n *node) bool { return n.hasLog(gk) })
 		return fmt.Sprintf("seen=%d/%d", c, len(w.nodes))
+	case "burst":
+		// n small silences and n small log entries are created back-to-back on node i (no waiting in between: all of them
+		// are queued for gossip within one gossip interval), then every node must come to hold all of them.  The settle
+		// time is far shorter than the push/pull interval (60 s): gossip has to deliver them.
+		i, _ := strconv.Atoi(t[1])
+		k, _ := strconv.Atoi(t[2])
+		var ids, gks []string
+		now := time.Now()
+		for j := range k {
+			s := &pb.Silence{
+				MatcherSets: []*pb.MatcherSet{{Matchers: []*pb.Matcher{{Type: pb.Matcher_EQUAL, Name: "job", Pattern: fmt.Sprintf("b%d", j)}}}},
+				StartsAt:    timestamppb.New(now), EndsAt: timestamppb.New(now.Add(time.Hour)),
+				Comment: "burst", CreatedBy: "verif",
+			}
+			if err := w.nodes[i].sil.Set(context.Background(), s); err != nil {
+				return "error:" + hx.Hex(err.Error())
+			}
+			ids = append(ids, s.Id)
+			gk := fmt.Sprintf("gk%d", len(w.gkeys)+len(gks))
+			if err := w.nodes[i].nfl.Log(recv, gk, []uint64{1<<40 + uint64(j)}, nil, nil, 0); err != nil {
+				return "error:" + hx.Hex(err.Error())
+			}
+			gks = append(gks, gk)
+		}
+		w.sils = append(w.sils, ids...)
+		w.gkeys = append(w.gkeys, gks...)
+		c := w.waitAll(func(n *node) bool {
+			for _, id := range ids {
+				if !n.hasSil(id) {
+					return false
+				}
+			}
+			for _, gk := range gks {
+				if !n.hasLog(gk) {
+					return false
+				}
+			}
+			return true
+		})
+		return fmt.Sprintf("seen=%d/%d", c, len(w.nodes))
 	case "rejoin":
 		// node i is killed (no leave is announced) and a NEW instance (new random name, empty state) starts on the same
 		// address at once, as a restarted process does; the others learn of the new name by gossip and of the old name's
@@ -314,8 +354,11 @@ func TestEngine(t *testing.T) {
 			size := []string{"small", "big"}[r.IntN(2)]
 			ops = append(ops, fmt.Sprintf("%s %d %s", kind, r.IntN(n), size))
 		}
+		// several small updates of one state queued within one gossip interval
+		ops = append(ops, fmt.Sprintf("burst %d %d", r.IntN(n), 2+r.IntN(4)))
 		ops = append(ops, "join")
 		ops = append(ops, fmt.Sprintf("sil %d big", r.IntN(n+1)), fmt.Sprintf("nfl %d small", r.IntN(n+1)))
+		ops = append(ops, fmt.Sprintf("burst %d %d", r.IntN(n+1), 2+r.IntN(4)))
 		if id%2 == 0 {
 			// a member crashes and restarts on its address under a new name; afterwards updates of both sizes from a
 			// surviving member must reach it
